@@ -1,6 +1,11 @@
 """Source of MANIFEST.json (python engine/manifest_gen.py)."""
 REALS = "C doubles / numpy float64 are decided as exact reals (rounding is outside the claim); geometry is concrete and listed in the evidence; "
 CHECKS = [
+    {"id": "C04", "engine": "symnp",
+     "technique": "symbolic execution of Supercell/TrimmedCell/SNF3x3 Python code on z3-backed scalars (reals for lattice/positions/masses, integers for the SNF matrix) with decision-replay forking; LRA/LIRA/NIA queries per path; concrete replay",
+     "text": "Bounded symbolic model checking: for each listed integer supercell matrix, both construction algorithms are executed on a symbolic unit cell; on every path the solver proves lattice = S^T L, each atom = its unit-cell atom + integer lattice vector, count = |det S| n, images distinct, attributes carried over and classic/SNF agreement. SNF3x3 is explored for all integer matrices with entries in [-1,1] (upper-triangular in quick) and proved to return a Smith normal form on every path. Primitive maps are evaluated as ground facts.",
+     "design_ref": "DESIGN.md 3/C04",
+     "note": REALS + "position/lattice boxes are 3 orders above symprec; heavy matrices are run with either lattice or positions symbolic; negative-determinant matrices are rejected by phonopy and not covered."},
     {"id": "C10", "engine": "llsym+llfp+symnp",
      "technique": "symbolic execution (IR of get_free_energy/get_entropy/get_heat_capacity/phpy_get_thermal_properties, Python mode_* and ThermalProperties) with uninterpreted exp/log/sinh/cosh/tanh/log1p unified by solver-proved argument equality; NRA identities; IEEE-754 binary64 execution of the IR and of mode_* decided by cvc5 QF_FP for NaN/inf",
      "text": "Bounded symbolic model checking: C kernel == Python == documented closed forms for all T>0, hv>0 (quantum, classical); kernel accumulation/cutoff/T>0 rule for all temperatures, frequencies, cutoff on small shapes; ThermalProperties wrapper (pretend_real x band_indices x classical x cutoff, lang C and Py) equals the documented weighted sums for all frequencies in boxes and symbolic T, T=0 => F=ZPE, S=Cv=0; Float64: no NaN/inf for T in [1e-2,1e4] K, hv in [1e-6,1] eV.",
@@ -28,7 +33,7 @@ CHECKS = [
      "note": REALS + "clang -O0 IR semantics as implemented by engine/llsym.py, validated at start against the compiled code; nanobind itself replaced by a stand-in header."},
 ]
 _NA = "not yet claimed in this revision (check under construction; see DESIGN.md section 3)"
-NOT_APPLICABLE = [{"property_id": "C%02d" % k, "reason": _NA} for k in range(1, 21) if k not in (2, 3, 6, 7, 10)]
+NOT_APPLICABLE = [{"property_id": "C%02d" % k, "reason": _NA} for k in range(1, 21) if k not in (2, 3, 4, 6, 7, 10)]
 for n in NOT_APPLICABLE:
     if n["property_id"] == "C18":
         n["reason"] = "whole-program CLI runs through argparse, file I/O and yaml with string-typed settings: no solver-decidable core (DESIGN.md section 4)"
